@@ -367,7 +367,7 @@ def _node_facts(v: FnView) -> list:
     return out
 
 
-def reach_expr(v: FnView, at, e: ast.expr, depth: int = 2) -> ast.expr | None:
+def reach_expr(v: FnView, at, e: ast.expr, depth: int = 2, aug: bool = False) -> ast.expr | None:
     """`e` with every name that the flow-insensitive resolver leaves alone (several assignments)
     but of which exactly one simple assignment `x = d` reaches the CFG node `at`, replaced by `d`
     (itself resolved at the assignment).  None when nothing was replaced."""
@@ -390,6 +390,16 @@ def reach_expr(v: FnView, at, e: ast.expr, depth: int = 2) -> ast.expr | None:
                     ds = defs_here.get(node.id)
                     if ds is not None and len(ds) == 1:
                         d = next(iter(ds))
+                        if isinstance(d, ast.AugAssign) and dep > 0 and aug:
+                            dn = v.cfg.stmt_node.get(id(d))
+                            if dn is not None and isinstance(d.op, (ast.Add, ast.Sub)):
+                                prev = rd.get(dn, {}).get(node.id)
+                                # the incoming value must itself be a single definition other than this statement
+                                if prev is not None and len(prev) == 1 and next(iter(prev)) is not d:
+                                    changed = True
+                                    inner = subst(ast.Name(id=node.id, ctx=ast.Load()), dn, dep - 1)
+                                    return ast.BinOp(left=inner, op=d.op, right=subst(clone(d.value), dn, dep - 1))
+                            return node
                         if isinstance(d, (ast.Assign, ast.AnnAssign)) and d.value is not None and dep > 0:
                             dn = v.cfg.stmt_node.get(id(d))
                             # a definition in terms of the name itself (`x = x.first_child`) is not a value
